@@ -11,6 +11,7 @@ import (
 	"context"
 	"encoding/json"
 	"fmt"
+	"github.com/mattn/anko/core"
 	"math/rand"
 	"os"
 	"reflect"
@@ -590,6 +591,46 @@ func main() {
 		os.Exit(2)
 	}
 	switch os.Args[1] {
+	case "keylaw":
+		// contharness keylaw <out>: one key, one entry -- the three operations that take a key (store, read, delete) agree on which entry a key expression
+		// addresses, for every key type of a typed map and every kind of key operand (the key is converted to the key type the same way in all three).
+		f, _ := os.Create(os.Args[2])
+		defer f.Close()
+		enc := json.NewEncoder(f)
+		keyTypes := []string{"int64", "float64", "string", "bool", "interface", "int32", "uint8"}
+		keys := []string{"1", "2", "0", "-1", "1.5", "2.5", "0.5", "-0.5", "7 / 2", "1.0", "\"1\"", "\"a\"", "\"1.5\"", "true", "false", "nil", "300", "1e3", "toInt(3)", "toFloat(2)", "len(\"ab\")", "[1][0]", "[1.5][0]"}
+		forms := []struct{ name, store, read string }{{"index", "m[k] = 41", "m[k]"}, {"plus-assign", "m[k] = 40\nm[k] += 1", "m[k]"}, {"through-var", "j = k\nm[j] = 41", "m[k]"}, {"read-var", "m[k] = 41\nj = k", "m[j]"}}
+		for _, kt := range keyTypes {
+			for _, k := range keys {
+				for _, fm := range forms {
+					pre := "m = make(map[" + kt + "]int64)\nk = " + k + "\n"
+					e := env.NewEnv()
+					core.Import(e)
+					o := map[string]interface{}{"kt": kt, "key": k, "form": fm.name, "stored": false, "read_ok": false, "len1": false, "deleted_ok": false, "panicked": false}
+					func() {
+						defer func() {
+							if r := recover(); r != nil {
+								o["panicked"] = true
+							}
+						}()
+						if _, err := vm.Execute(e, nil, pre+fm.store); err != nil {
+							return
+						}
+						o["stored"] = true
+						if v, err := vm.Execute(e, nil, fm.read); err == nil && v == int64(41) {
+							o["read_ok"] = true
+						}
+						if v, err := vm.Execute(e, nil, "len(m)"); err == nil && v == int64(1) {
+							o["len1"] = true
+						}
+						if v, err := vm.Execute(e, nil, "delete(m, k)\n[len(m), m[k] == nil]"); err == nil && reflect.DeepEqual(v, []interface{}{int64(0), true}) {
+							o["deleted_ok"] = true
+						}
+					}()
+					enc.Encode(o)
+				}
+			}
+		}
 	case "random":
 		seed, _ := strconv.ParseInt(os.Args[2], 10, 64)
 		n, _ := strconv.Atoi(os.Args[3])
